@@ -21,6 +21,21 @@ def _canon_ev(e: dict) -> str:
 
 
 def run_case(case: dict) -> dict:
+    out = _run_one(case)
+    if case.get("twin") and not out.get("skipped"):
+        # the same documents under a mapping that differs ONLY inside one priority list, right
+        # after the first one in the same interpreter: each mapping must be applied on its own
+        t = _run_one(dict(case, mapping=case["twin"]["mapping"], spec=case["twin"]["spec"],
+                          twin=None))
+        out["twin_run"] = True
+        if not t.get("skipped"):
+            for v in t.get("violations", []):
+                out["violations"].append({"symptom": v["symptom"],
+                                          "detail": dict(v["detail"], second_mapping_of_a_twin=True)})
+    return out
+
+
+def _run_one(case: dict) -> dict:
     from tel2puml.otel_to_pv.data_sources.json_data_source.json_datasource import JSONDataSource
     from tel2puml.otel_to_pv.data_sources.json_data_source.json_config import (
         JSONDataSourceConfig, OTelFieldMapping)
@@ -160,13 +175,31 @@ def workload(tier: str, seed: int) -> tuple[list[dict], dict]:
         if big:
             mode = "per-line" if i % 80 == 7 else mode
         spec = {f: refmap.field_spec_of(fl, mp["spine"], rng) for f, fl in mp["fields"].items()}
+        twin = None
+        if i % 10 == 3:
+            import copy
+            cand = [(f, k) for f, fl in mp["fields"].items() for k, pr in enumerate(fl)
+                    if len(pr) == 2 and pr[0] != pr[1]]
+            if cand:
+                f, k = rng.choice(cand)
+                mp2 = copy.deepcopy(mp)
+                mp2["fields"][f][k] = [mp2["fields"][f][k][1], mp2["fields"][f][k][0]]
+                # the twin's YAML differs from the original only by the order inside that
+                # one priority list (same spelling everywhere else)
+                spec2 = copy.deepcopy(spec)
+                for key in ("key_paths", "key_value", "value_paths"):
+                    if key in spec2[f] and isinstance(spec2[f][key][k], list):
+                        spec2[f][key][k] = list(reversed(spec2[f][key][k]))
+                twin = {"mapping": mp2, "spec": spec2}
         tags = refmap.docs_tags(docs, mp) | {mode, "hostile" if hostile else "plain"}
+        if twin:
+            tags.add("twin-mapping")
         if big:
             tags.add("document-longer-than-64KiB")
         if refmap.kv_sibling_unfollowable(docs, mp):
             tags.add("kv-sibling-unfollowable")
         cases.append({"kind": "random", "name": f"m{i}", "mapping": mp, "docs": docs, "spec": spec,
-                      "mode": mode, "ascii": rng.random() < 0.5, "indent": rng.choice([None, None, 2]) if mode != "per-line"
+                      "twin": twin, "mode": mode, "ascii": rng.random() < 0.5, "indent": rng.choice([None, None, 2]) if mode != "per-line"
                       else None, "tags": sorted(tags), "work_dir": wd})
         stats[mode] += 1
         stats["hostile" if hostile else "plain"] += 1
@@ -186,7 +219,9 @@ def main(tier: str, seed: int) -> int:
              "values with surrounding blanks and U+2028/U+2029/U+0085 inside (files "
              "written with and without \\u escapes); 30% hostile (shape confusion, booleans, duplicate keys); modes "
              "whole-file / one-JSON-per-line / directory; plus the documentation's own examples "
-             "verbatim. distinct = distinct case digest; trivial = reference yields no record")
+             "verbatim; every tenth case is followed, in the same interpreter, by a twin whose "
+             "mapping differs only in the order inside one priority list. distinct = distinct "
+             "case digest; trivial = reference yields no record")
     chk.assumptions = [
         "reference interpreter vlib/refmap.py encodes docs/user/json_data_converter_HOWTO.md; "
         "where the document is silent (duplicate keys, boolean false, float/object leaves, "
